@@ -271,7 +271,7 @@ CHECKS["C14"] = dict(
 
 CHECKS["C15"] = dict(
     technique="Coq proofs by induction over runs on an MCMC chain model (carried density = target, accept iff u < min(1, exp(delta + Hastings)), reject restores the state, logged rows consistent) and, with Coquelicot, that each operator's Hastings term is the log ratio of the true proposal densities (scaler, sliding window, precision mixture); tuning expressions regenerated from source (translator T3) and proved monotone in the right direction; transition records of real runs replayed through the model",
-    text="35 theorems in prop/C15.v: carried_density_is_target, accept_iff(_unfolded), accept_log_form, reject_restores, logged_row_consistent, "
+    text="36 theorems in prop/C15.v: carried_density_is_target, accept_iff(_unfolded), accept_log_form, reject_restores, logged_row_consistent, "
          "trace_chained (every run, operator schedule and draw sequence); scaler_event_is_cdf / scale_density_is_derivative / "
          "hastings_scaler, sliding_* / hastings_sliding, hastings_dirichlet, hastings_hmc_is_delta_H, precision_* / "
          "hastings_precision_mixture; hastings_gaussian_block (the block operator's forward and backward terms are the log densities "
